@@ -515,12 +515,14 @@ Section RP.
     - intros e He. apply Hcl. apply Hh. assumption.
   Qed.
 
+  (* GC_Resize_Less for ANY shrink condition (the generated one is never looked at): either the
+     table is rebuilt at ideal(nitems) > nitems slots, or it is left alone *)
   Lemma resize_less_ok g : Inv g ->
     exists l', resize_less hashf swap primes num den g = Some (set_slots g l') /\ Inv (set_slots g l') /\
                (forall x, Holds l' x <-> Holds (slots g) x).
   Proof.
-    intros Hi. pose proof Hi as [H Hcl]. unfold resize_less.
-    destruct (Nat.ltb_spec (ideal (nitems g)) (nslots g)) as [Hlt|Hge].
+    intros Hi. pose proof Hi as [H Hcl]. unfold resize_less. cbv zeta.
+    match goal with |- context [if ?c then _ else _] => destruct c end.
     - destruct (g_rehash_ok g (ideal (nitems g))) as [l' [Hr [Hc' [Hlen [Hh Ho]]]]].
       + apply (inv_core g H).
       + assumption.
